@@ -91,7 +91,13 @@ def sd_to_doc(rng, sd):
     osn = [f"os_{rng.choice('abcdef')}{i}" for i in range(sd["nos"])]
     srvn = [f"srv_{rng.choice('abcdef')}{i}" for i in range(sd["nsrv"])]
     procn = [f"proc_{rng.choice('abcdef')}{i}" for i in range(sd["nproc"])]
-    if rng.random() < 0.3:
+    if rng.random() < 0.25:
+        # names "can be anything": words that mean something elsewhere (an OS is never called none: that spelling IS
+        # the documented "any OS" of exploits)
+        odd = ["none", "None", "true", "off", "null", "yes", "NONE", "~"]
+        srvn[rng.randrange(len(srvn))] = rng.choice(odd)
+        procn[rng.randrange(len(procn))] = rng.choice([x for x in odd if x not in srvn] or ["nope"])
+    elif rng.random() < 0.3:
         # names "can be anything": the same name may appear in several of the three lists
         pool = [f"name{i}" for i in range(max(sd["nos"], sd["nsrv"], sd["nproc"]) + 1)]
         osn, srvn, procn = rng.sample(pool, sd["nos"]), rng.sample(pool, sd["nsrv"]), rng.sample(pool, sd["nproc"])
@@ -161,7 +167,10 @@ def random_doc(rng):
         # one OS per host; discovery values are not part of the format
         ok = all(e["cost"] > 0 for e in sd["exploits"]) and all(p["cost"] > 0 for p in sd["privescs"])
         if ok:
-            return sd_to_doc(rng, sd)
+            doc = sd_to_doc(rng, sd)
+            if rng.random() < 0.35:
+                doc = add_spare_rules(rng, doc) or doc      # the mutation operators then hit spare rules as well
+            return doc
 
 
 def shipped_docs():
@@ -458,6 +467,18 @@ for _sec, _tgt, _nm in (("exploits", "service", "exploit"), ("privilege_escalati
 
 
 # ---------------------------------------------------------------------------
+def add_spare_rules(rng, d):
+    n = len(d["subnets"]) + 1
+    topo = d["topology"]
+    have = {str(eval(k)) if isinstance(k, str) else str(k) for k in d["firewall"]}
+    spare = [(s, t) for s in range(n) for t in range(n) if (s == t or not topo[s][t]) and str((s, t)) not in have]
+    if not spare:
+        return None
+    for s, t in rng.sample(spare, min(2, len(spare))):
+        d["firewall"][str((s, t))] = rng.sample(d["services"], rng.randint(0, len(d["services"])))
+    return d
+
+
 def impl_load(doc, tag):
     """dump the object, let the implementation load the file; returns (accepted, Scenario|error)"""
     os.makedirs(WORK, exist_ok=True)
@@ -575,7 +596,16 @@ def explore_loaded(rng, out, n):
         mo = run_driver([[10, [Transcriber().v(seen)]]])[0][0]
         if mo == [-1] or not mo[0]:
             continue
-        sd = scen.scenario_to_sd(sc, strict_keys=True)
+        try:
+            sd = scen.scenario_to_sd(sc, strict_keys=True)
+        except Inexact:
+            raise
+        except Exception as e_:   # noqa: BLE001 -- the loaded object does not even say what the file says
+            out["violations"].append(dict(kind="document", property="C17", failing_input_found=True, label="explore@random", document=seen,
+                                          what="the scenario loaded from this valid document cannot be read back against "
+                                               f"its own name lists ({e_!r}): a definition names something the file does "
+                                               "not"[:400]))
+            continue
         e = ex.explore(sd, sc, (0, 1, 0), 400, rng=rng, paths=2, depth=5, sample=80)
         states += e["states"]
         trans += e["transitions"]
@@ -620,6 +650,10 @@ def run(ctx, spec):
         d = copy.deepcopy(doc)
         d.pop("step_limit", None)
         items.append((f"valid.no_step_limit@{name}", d))
+        # rules for pairs of subnets the topology does not connect (and for a subnet with itself): allowed, ignored
+        d = add_spare_rules(rng, copy.deepcopy(doc)) if rng.random() < 0.25 else None
+        if d is not None:
+            items.append((f"valid.spare_firewall_rules@{name}", d))
         # YAML anchors / aliases: a sensitive and a non-sensitive host share ONE configuration mapping (the dumper
         # writes &id / *id for the shared Python object, the loader gets one dict for both hosts)
         d = copy.deepcopy(doc)
